@@ -28,6 +28,7 @@ import (
 	"strconv"
 	"strings"
 	"sync"
+	"sync/atomic"
 	"time"
 )
 
@@ -379,7 +380,7 @@ func (p *ReverseProxy) clusterInvoke(srv *BfeServer, cluster *bfe_cluster.BfeClu
 			request.ErrMsg = ""
 
 			// record body size of request after forward
-			request.Stat.BodyLenIn = int(outreq.State.BodySize)
+			request.Stat.BodyLenIn = int(atomic.LoadUint32(&outreq.State.BodySize))
 
 			if bfe_debug.DebugServHTTP {
 				log.Logger.Debug("ReverseProxy.ServeHTTP(): get response from %s", backend.Name)
